@@ -20,8 +20,37 @@ FOREIGN = 1_000_000
 
 MODEL_FILES = ["C14M/MemSem.v", "C14M/MemFacts.v", "C14M/MemDse.v"]
 PROOF_FILES = ["C14M/MemSemProofs.v", "C14M/MemFactsProofs.v", "C14M/MemFwdProofs.v", "C14M/MemDseProofs.v", "C14M/PropsMem.v"]
+TIE_FILES = ["C14M/GenMemEffects.v", "C14M/MemTie.v"]
 MODEL_DEPS = ["C14/RangeBase.v", "C14/MemLocBase.v", "C14/GenMemLoc.v"]
 PROOF_DEPS = MODEL_DEPS + ["C14/MemLocSound.v"]
+EFF2SP = {"STORAGE": "Sto", "TRANSIENT": "Tra", "MEMORY": "Mem", "IMMUTABLES": "Imm", "RETURNDATA": "Ret", "LOG": "Log",
+          "BALANCE": "Bal", "EXTCODE": "Ext", "FMP": "Fmp"}
+LEVEL = {"GAS": "gas", "CODESIZE": "codesize", "O3": "O3"}
+
+
+def gen_effects():
+    """vyper.venom.effects.{reads,writes} -> Gallina tables opcode -> list sp (fail closed on an unknown effect)"""
+    import vyper.venom.effects as EF
+    members = [m.name for m in EF.Effects]
+    unknown = [m for m in members if m not in EFF2SP]
+    if unknown:
+        raise ValueError(f"effects.py has rows the model does not know: {unknown}")
+
+    def table(name, d):
+        body = ""
+        for k in sorted(d):
+            body += f'  if String.eqb n "{k}" then [' + "; ".join(EFF2SP[m.name] for m in EF.Effects if m in d[k]) + "] else\n"
+        return f"Definition gen_{name} (n : string) : list sp :=\n{body}  [].\n"
+    return ("(* GENERATED from vyper/venom/effects.py by tools/vlib/c14m_part.py -- do not edit *)\n"
+            "From Coq Require Import List String.\nFrom Verif Require Import C14M.MemSem.\nImport ListNotations.\n"
+            "Open Scope string_scope.\n\n" + table("reads", EF.reads) + "\n" + table("writes", EF.writes))
+
+
+def write_gen():
+    p = COQ / "C14M" / "GenMemEffects.v"
+    text = gen_effects()
+    if not p.exists() or p.read_text() != text:
+        p.write_text(text)
 
 PASSES = {"LoadElimination": "fwd", "CSE": "fwd", "DeadStoreElimination": "dse"}
 
@@ -199,16 +228,159 @@ def evaluate(records, name="c14m", shard=8, timeout=900):
 
 
 def compile_corpus(progs, levels, obs):
-    from vyper.compiler import compile_code
-    from vyper.compiler.settings import Settings
+    """levels: 'gas' | 'codesize' | 'O3'"""
+    from vlib.configs import Config, compile_src
     nfail = 0
     with warnings.catch_warnings():
         warnings.simplefilter("ignore")
         for c in progs:
             for lvl in levels:
-                obs.context = (c["name"], lvl.name)
+                obs.context = (c["name"], lvl)
                 try:
-                    compile_code(c["src"], output_formats=["bytecode"], settings=Settings(experimental_codegen=True, optimize=lvl))
+                    compile_src(c["src"], Config(True, lvl, "cancun"), formats=("bytecode",))
                 except Exception:
                     nfail += 1
     return nfail
+
+
+# ------------------------------------------------------------------------------------------------ search
+def search(entry, level, pass_name, seed, tier):
+    """behavioural differential of the real pipeline at `level` against the legacy -O none reference on pyrevm, and
+    localisation by turning `pass_name` into a no-op.  -> dict(diff, localised, call) or None"""
+    import random
+    from vlib import c02_runner as R
+    from vlib import c14_pass_harness as H
+    from vlib import c14_pass_run as PR
+    from vlib.configs import Config, compile_src
+    if "__BPLEN__" in entry["src"]:
+        from vlib.c14_pass_corpus import HELPERS
+        hsrc, _ = HELPERS[entry["helper"]]
+        n = len(bytes.fromhex(compile_src(hsrc, Config(False, "gas", PR.EVM), formats=("bytecode",))["bytecode"][2:]))
+        entry = dict(entry, src=entry["src"].replace("__BPLEN__", str(n)))
+    rng = random.Random(f"{seed}:c14m:{entry['name']}")
+    ref_out = compile_src(entry["src"], Config(False, "none", PR.EVM), formats=("bytecode", "bytecode_runtime", "abi", "layout"))
+    abi = ref_out["abi"]
+    d = PR.Deployed(entry, ref_out["bytecode"], abi)
+    if d.addr is None:
+        return None
+    per_fn, n_random = (8, 12) if tier == "quick" else (16, 40)
+    plan = PR.make_plan(abi, entry["src"], rng, d.addrs(), per_fn, n_random)
+    ref = PR.observe(entry, ref_out, abi, plan)
+    cfg = Config(True, level, PR.EVM)
+    try:
+        out = H.compile_with(entry["src"], cfg, H.State(), formats=("bytecode", "layout"))
+    except Exception as e:  # noqa
+        return {"diff": {"what": "compile-failure", "error": f"{type(e).__name__}: {str(e)[:300]}"}, "localised": False, "call": None, "config": cfg.name}
+    obs = PR.observe(entry, out, abi, plan)
+    diff = R.first_difference(ref, obs)
+    if diff is None:
+        return None
+    stats = {"skip_compiles": 0, "skip_failed": 0}
+    r = PR._skip_run(entry, cfg, pass_name, abi, plan, stats)
+    localised = r is not None and R.first_difference(ref, r) is None
+    return {"diff": diff, "localised": localised, "call": PR._call_desc(plan, diff.get("call")), "config": cfg.name, "calls": len(plan)}
+
+
+# ------------------------------------------------------------------------------------------------ the part
+def _build(ctx):
+    write_gen()
+    ctx.coq_build_cached(MODEL_FILES, deps=MODEL_DEPS, timeout=600)
+    b = ctx.coq_build_cached(PROOF_FILES, deps=PROOF_DEPS + MODEL_FILES, timeout=900)
+    t = ctx.coq_build_cached(TIE_FILES, deps=MODEL_FILES[:1], timeout=300)
+    return b, t
+
+
+def prebuild(ctx):
+    _build(ctx)
+
+
+def part_mem_passes(ctx):
+    from vlib import c14_pass_corpus as PC
+    t0 = time.time()
+    b, tie = _build(ctx)
+    quick = ctx.tier == "quick"
+    rnd = ctx.rng("c14m")
+    progs = PC.select(ctx.tier, rnd)
+    levels = ["gas"] if quick else ["gas", "codesize", "O3"]
+    with Observer(max_insts=700 if quick else 1500) as obs:
+        nfail = compile_corpus(progs, levels, obs)
+    for e in obs.errors[:3]:
+        ctx.violation("correspondence-broken", "cannot export a pass invocation: " + e, {"errors": obs.errors[:5]})
+    recs = obs.records
+    if quick and len(recs) > 60:
+        # the invocations on the priority programs first, then a seeded sample
+        prio = {c["name"] for c in progs if c.get("prio") == 0}
+        head = [r for r in recs if r["context"][0] in prio][:36]
+        rest = [r for r in recs if r not in head]
+        recs = head + rnd.sample(rest, min(len(rest), 60 - len(head)))
+    stats = {"invocations": dict(obs.n_invocations), "changed": dict(obs.n_changed), "distinct_changed_exported": len(obs.records),
+             "evaluated": len(recs), "too_big_skipped": obs.skipped_big, "compile_failures": nfail, "programs": len(progs), "levels": levels,
+             "verdicts": {}}
+    verdicts = []
+    if recs and (COQ / "C14M" / "MemDse.vo").exists():
+        try:
+            verdicts = evaluate(recs, shard=max(1, len(recs) // 10), timeout=1500)
+        except RuntimeError as e:
+            ctx.violation("correspondence-broken", "the validators of the memory passes could not be evaluated", {"error": str(e)[-1500:]})
+            recs = []
+    entries = {c["name"]: c for c in progs}
+    reported = 0
+    searched = {}
+    for r, v in zip(recs, verdicts):
+        if v == "rejected" and r["new_phis"]:
+            v = "unsupported"              # LoadElimination merged values with a new phi: outside the validator's domain
+            r["why"] = "phi insertion"
+        d = stats["verdicts"].setdefault(r["pass_name"], {"accepted": 0, "unsupported": 0, "rejected": 0})
+        d[v] += 1
+        if v != "rejected":
+            continue
+        prog, lvl = r["context"]
+        key = (prog, lvl, r["pass_name"])
+        if key not in searched:
+            try:
+                searched[key] = search(entries[prog], lvl, r["pass_name"], ctx.seed, ctx.tier) if prog in entries else None
+            except Exception as e:  # noqa
+                searched[key] = None
+                ctx.log(f"  c14m search failed for {key}: {type(e).__name__}: {e}")
+        s = searched[key]
+        thm = {"LoadElimination": "le_check_sound", "CSE": "cse_check_sound", "DeadStoreElimination": "dse_check_sound"}[r["pass_name"]]
+        detail = {"pass": r["pass_name"], "program": prog, "config": f"venom-{lvl}-cancun", "function": r["fn"], "theorem": thm,
+                  "changes_not_justified_among": r["changes"][:12], "function_before": r["text_before"][:6000], "addr_space": r["addr_space"]}
+        if reported >= 3:
+            continue
+        reported += 1
+        if s is not None:
+            ctx.violation("failing-input", f"{r['pass_name']} makes a replacement the proved validator rejects and the compiled contract "
+                          f"{prog} ({lvl}) behaves differently from the reference" + (" (localised: equal to the reference with the pass skipped)" if s["localised"] else ""),
+                          dict(detail, source=entries[prog]["src"], call=s["call"], difference=s["diff"], localised_to_pass=s["localised"],
+                               expected="same status / return data / logs / storage as legacy -O none"),
+                          key=f"C14M:{r['pass_name']}:{prog}")
+        else:
+            ctx.violation("theorem-broken", f"{thm} does not apply: {r['pass_name']} on {r['fn']} of {prog} ({lvl}) makes a replacement that is "
+                          "neither justified by the proved validator nor explained by its known domain limits", detail,
+                          key=f"C14M:reject:{r['pass_name']}:{prog}")
+    if not tie["ok"]:
+        bad = None
+        try:
+            bad = coqrun.eval_cases("From Verif Require Import C14M.MemSem C14M.GenMemEffects.\n" + _tie_defs(), ["tie_bad"], "c14m_tie")
+        except Exception:  # noqa
+            pass
+        if not reported:
+            ctx.violation("correspondence-broken", "effects.py does not cover the footprint of an instruction (model_covered_by_effects)",
+                          {"theorem": "model_covered_by_effects", "opcodes": bad, "coq_output": tie.get("out", "")[-800:]})
+    if not b["ok"] and not reported:
+        ctx.violation("theorem-broken", f"{b.get('failed_lemma')} in {b['file']}", {"theorem": b.get("failed_lemma"), "file": b["file"],
+                                                                                     "coq_output": b["out"][-1500:]})
+    stats["seconds"] = round(time.time() - t0, 1)
+    ctx.corr["memory_passes"] = stats
+    acc = [r for r, v in zip(recs, verdicts) if v == "accepted"]
+    if acc:
+        ctx.samples.append({"accepted": acc[0]["pass_name"], "program": acc[0]["context"][0], "function": acc[0]["fn"], "changes": acc[0]["changes"][:3]})
+    return sum(d["accepted"] + d["unsupported"] + d["rejected"] for d in stats["verdicts"].values())
+
+
+def _tie_defs():
+    text = (COQ / "C14M" / "MemTie.v").read_text()
+    i = text.index("Definition model_reads")
+    j = text.index("Theorem model_covered_by_effects")
+    return "From Coq Require Import ZArith List Bool String.\nImport ListNotations.\nOpen Scope string_scope.\n" + text[i:j]
